@@ -584,6 +584,14 @@ func (c *Compiler) structCode(typ *runtime.Type, isPtr bool) (*StructCode, error
 
 	fieldNum := typ.NumField()
 	tags := c.typeToStructTags(typ)
+	// the names of this struct's own members hide the members of embedded structs.
+	// An embedded struct that is flattened has no member name of its own.
+	ownTags := make(runtime.StructTags, 0, len(tags))
+	for _, tag := range tags {
+		if !isEmbeddedStructTag(tag) {
+			ownTags = append(ownTags, tag)
+		}
+	}
 	fields := []*StructFieldCode{}
 	for i, tag := range tags {
 		isOnlyOneFirstField := i == 0 && fieldNum == 1
@@ -594,7 +602,7 @@ func (c *Compiler) structCode(typ *runtime.Type, isPtr bool) (*StructCode, error
 		if field.isAnonymous {
 			structCode := field.getAnonymousStruct()
 			if structCode != nil {
-				structCode.removeFieldsByTags(tags)
+				structCode.removeFieldsByTags(ownTags)
 				if c.isAssignableIndirect(field, isPtr) {
 					if indirect {
 						structCode.isIndirect = true
@@ -636,6 +644,13 @@ func toElemType(t *runtime.Type) *runtime.Type {
 	return t
 }
 
+// isEmbeddedStructTag reports whether the field is an embedded struct ( or pointer to one ) without
+// a name of its own: its members are members of the outer struct.
+func isEmbeddedStructTag(tag *runtime.StructTag) bool {
+	field := tag.Field
+	return field.Anonymous && !tag.IsTaggedKey && toElemType(runtime.Type2RType(field.Type)).Kind() == reflect.Struct
+}
+
 func (c *Compiler) structFieldCode(structCode *StructCode, tag *runtime.StructTag, isPtr, isOnlyOneFirstField bool) (*StructFieldCode, error) {
 	field := tag.Field
 	fieldType := runtime.Type2RType(field.Type)
@@ -645,7 +660,7 @@ func (c *Compiler) structFieldCode(structCode *StructCode, tag *runtime.StructTa
 		key:           tag.Key,
 		tag:           tag,
 		offset:        field.Offset,
-		isAnonymous:   field.Anonymous && !tag.IsTaggedKey && toElemType(fieldType).Kind() == reflect.Struct,
+		isAnonymous:   isEmbeddedStructTag(tag),
 		isTaggedKey:   tag.IsTaggedKey,
 		isNilableType: c.isNilableType(fieldType),
 		isNilCheck:    true,
